@@ -25,6 +25,25 @@ def gen_cases(chk, sd, thorough, name, cfg, impl=None):
     return r
 
 
+def stable_overlay(sd):
+    """vf.make_overlay points into a cache shared with (and pruned by) concurrently running checks: copy the two
+    generated files into this run's scratch directory so that the build cannot lose them."""
+    import shutil
+    for attempt in range(5):
+        ov = vf.make_overlay(sd, [])
+        rep = json.load(open(ov))["Replace"]
+        try:
+            for dst, src in list(rep.items()):
+                mine = os.path.join(sd, "gen-" + os.path.basename(dst))
+                shutil.copy(src, mine)
+                rep[dst] = mine
+        except OSError:
+            continue
+        json.dump({"Replace": rep}, open(ov, "w"), indent=1)
+        return ov
+    raise vf.NoVerdict("generated build files keep disappearing from the shared cache")
+
+
 def want_pre(case):
     return [(o["k"], o["val"]) for o in (case["l"], case["r"]) if o["cls"] != "none" and not o["c"]]
 
@@ -125,7 +144,7 @@ def run():
         chk.cov["go_crosschecked_cells"] = ncross
         vf.log("Go cross-check: %d cells in %.0fs" % (ncross, time.time() - t0))
         # 4. R: every cell on the real interpreter, under each mode
-        ov = vf.make_overlay(sd, [])
+        ov = stable_overlay(sd)
         ego = vf.build_ego(sd, ov)
         env = vf.ego_env(sd)
         stats, nrun, classes, setup = {}, 0, set(), []
